@@ -80,8 +80,15 @@ class OptimizerBase(abc.ABC):
             self.grid.update(junction.index, clamp.position)
             return junction.quality
 
+        # a forward step must not leave the clamp's bounds (a curve can't be evaluated there): step inwards instead
+        epsilon = np.full(len(clamp.params), 10 * TOL)
+        if clamp.bounds is not None:
+            for i, (_, upper) in enumerate(clamp.bounds):
+                if upper is not None and clamp.params[i] + epsilon[i] > upper:
+                    epsilon[i] = -epsilon[i]
+
         sensitivities = np.asarray(
-            scipy.optimize.approx_fprime(clamp.params, lambda p: fquality(clamp, junction, p), epsilon=10 * TOL)
+            scipy.optimize.approx_fprime(clamp.params, lambda p: fquality(clamp, junction, p), epsilon=epsilon)
         )
 
         clamp.update_params(initial_params)
